@@ -186,3 +186,18 @@ CHECKS["C07"] = {
     "design_ref": "DESIGN.md section 5 (C07)",
     "note": "Repetition counts up to 3*10^6 (quick) / 2*10^7 (thorough); the allocation bound has slack (64 MiB + 2*(conc+3) blocks).",
 }
+
+CHECKS["C15"] = {
+    "category": "fault_enumeration",
+    "technique": "TLA+ Writer model with fault actions (SinkFails, FlushFails) model-checked (MC_WriterFault); complete enumeration of the "
+                 "failing sink / source call index k on real runs, each validated by TLC trace validation (Writer_Trace, LZ4Frame_Trace_C15)",
+    "text": "For every (options, input, history) case the fault-free run fixes the number N of calls on the underlying writer; every k in "
+            "1..N (N <= 64; otherwise the first and last 16 and 32 sampled) is made to fail and the recorded run must be a behaviour "
+            "of Writer.tla: the injected error is returned by the call during which it happened (sequential) or by a later call, at the "
+            "latest Close (concurrent), nothing reaches the sink afterwards and the sink holds a prefix of the fault-free bytes. "
+            "For the Reader every k-th source call fails under six fragmentation patterns (single bytes, 2/3/5 chunks, zero-length "
+            "reads, data together with io.EOF): the injected error - never a clean end - is returned with a prefix of the content, "
+            "and without a fault every pattern delivers exactly the content.",
+    "design_ref": "DESIGN.md section 5 (C15)",
+    "note": "The failing call fails from k on (so 'what reached the sink before' is everything in the sink).",
+}
